@@ -416,3 +416,73 @@ _run_before_r6 = run
 def run(ctx):
     _run_before_r6(ctx)
     r6_pattern_groups(ctx)
+
+
+def r7_reader_structure(ctx):
+    """the SAN reader judges uniqueness over legal moves only and has no exit besides its reviewed ones"""
+    rid = "C14.R7"
+    ctx.rule(rid, "pgn_to_bb decides on the legal moves: the list whose length is compared with 1 has passed an is_move_legal filter (or comes from generate_legal_moves with no pseudo-legal generator in the function), and the function's result is assigned only at the three reviewed sites (pass-through of the text-level error, candidate count != 1, the unique candidate): no early rejection based on the board", floor=3)
+    from .c08 import _atoms
+    prog = ctx.prog
+    f = ctx.fn(rid, BB + "pgn_to_bb")
+    cfg, ex = Cfg(f), Exprs(f)
+    calls = [(b, f["blocks"][b]["term"]["callee"].get("key") or "") for b in sorted(cfg.reach) if f["blocks"][b]["term"]["k"] == "call" and not f["blocks"][b]["cleanup"]]
+    legal_gen = [b for b, k in calls if k == BB + "generate_legal_moves"]
+    pseudo_gen = [b for b, k in calls if k.startswith(BB + "generate_pseudo_legal")]
+    lens = [b for b, k in calls if k.endswith("Vec::len") or k.endswith("::len")]
+    # filters whose closure probes legality
+    legal_filters = []
+    for b, k in calls:
+        if k.endswith("Iterator::filter"):
+            for a in f["blocks"][b]["term"]["args"]:
+                tr = ex.operand(a)
+                if tr[0] == "agg" and tr[1] == "closure":
+                    g = prog.fns.get(tr[2])
+                    if g and any(t["k"] == "call" and (t["callee"].get("key") or "") == BB + "is_move_legal" for t in (bb_["term"] for bb_ in g["blocks"])):
+                        legal_filters.append(b)
+    count_tests = []
+    for b in sorted(cfg.reach):
+        t = f["blocks"][b]["term"]
+        if t["k"] == "switch":
+            d = ex.operand(t["discr"])
+            if d[0] == "bin" and d[1] in ("Ne", "Eq") and any(x[0] == "c" and x[1] == 1 for x in (d[2], d[3])) and any(x[0] == "call" and x[1].endswith("::len") for x in leaves(d)):
+                count_tests.append(b)
+    ok = bool(count_tests) and all(any(cfg.dominates(lf, ct) for lf in legal_filters) or (legal_gen and not pseudo_gen and any(cfg.dominates(g_, ct) for g_ in legal_gen)) for ct in count_tests)
+    ctx.ob(rid, "uniqueness-over-legal-moves", ok,
+           "" if ok else "pgn_to_bb compares the number of candidates with 1 before the candidates are known to be legal (no is_move_legal filter dominates the test, and the list comes from the pseudo-legal generator): a pinned like piece makes correct SAN 'ambiguous'",
+           ctx.where(f), sample={"count_tests": len(count_tests), "legal_filters": len(legal_filters), "legal_generator": len(legal_gen), "pseudo_generator": len(pseudo_gen)})
+    REVIEWED = {"[discr,local]=1": "the text did not match the pattern / no component group: the text-level error is passed on",
+                "[call:Vec::len,cmp]else": "not exactly one legal candidate",
+                "[call:Vec::len,cmp]=0": "the unique legal candidate"}
+    seen = set()
+    for b in sorted(cfg.reach):
+        blk = f["blocks"][b]
+        if blk["cleanup"]:
+            continue
+        for s in blk["stmts"]:
+            d = s["dst"]
+            if d is None or d["l"] != 0 or d["p"]:
+                continue
+            gs = []
+            for (a, sb) in sorted(cfg.control_deps().get(b, ())):
+                sw = f["blocks"][a]["term"]
+                if sw["k"] == "switch":
+                    dd = ex.operand(sw["discr"])
+                    taken = [v for v, tb in sw["targets"] if tb == sb]
+                    gs.append("[" + ",".join(sorted(_atoms(dd))) + "]" + ("=%s" % taken[0] if taken else "else"))
+            key = " & ".join(sorted(set(gs))) or "-"
+            if key in seen:
+                continue
+            seen.add(key)
+            ok = key in REVIEWED
+            ctx.ob(rid, "result-site|%s" % key, ok,
+                   "" if ok else "pgn_to_bb assigns its result under `%s`, which is not one of its reviewed exits: an early answer that depends on the board (for example 'a capture needs a piece on the target square') rejects standard SAN such as an en-passant capture" % key,
+                   ctx.where(f, s["line"]), sample={"guard": key, "reason": REVIEWED.get(key, "")})
+
+
+_run_before_r7 = run
+
+
+def run(ctx):
+    _run_before_r7(ctx)
+    r7_reader_structure(ctx)
